@@ -1,14 +1,18 @@
 #!/bin/bash
 # usage: tools/try_patch.sh <patch.diff|commit:HASH> <ID> [vcheck args...]
-# Applies a patch (or reverses a fix commit) to /repo, runs the check, and restores /repo.
+# Applies a patch (or reverses a fix commit) in a scratch worktree of /repo (never /repo itself), points the engine
+# and the replay at it (VERIF_REPO / VERIF_REPLAY_REPO), runs the check, removes the worktree.
 P="$1"; ID="$2"; shift 2
-cd /repo || exit 9
-if ! git diff --quiet; then echo "/repo not clean"; exit 9; fi
+WT=$(mktemp -d /tmp/vwt.XXXXXX)
+git -C /repo worktree add -q --detach "$WT" HEAD || exit 9
+cleanup() { git -C /repo worktree remove --force "$WT" 2>/dev/null; rm -rf "$WT"; }
+trap cleanup EXIT
+cd "$WT" || exit 9
 if [[ "$P" == commit:* ]]; then
   git show "${P#commit:}" | git apply -R || { echo "cannot reverse ${P}"; exit 9; }
 else
-  git apply "$P" || { echo "cannot apply $P"; exit 9; }
+  git apply "$P" 2>/dev/null || patch -p1 -F3 -s < "$P" || { echo "cannot apply $P"; exit 9; }
 fi
+export VERIF_REPO="$WT" VERIF_REPLAY_REPO="$WT" VERIF_EVIDENCE_DIR="$WT/.evidence" VERIF_REPLAY_DIR="$WT/.replays"
 cd /verif && ./vcheck "$ID" "$@"; rc=$?
-git -C /repo checkout -- . 
 echo "EXIT=$rc"
